@@ -42,21 +42,38 @@ N = {"quick": {"random": 1500, "weighted": 1200, "triples": 10, "internal_rate":
 
 
 def gen(tier, seed, shard, nshards):
+    if tier == "thorough":
+        for m, module in enumerate(['test_utils.py', 'test_lganm.py', 'test_generators.py']):
+            if m % nshards == shard:
+                yield "repo-tests", {"module": module}
     for c in _gc.iter_pdag_cases((1, 2, 3, 4), shard, nshards):
         yield "pdag", c
     for k in range(N[tier]["random"]):
         if k % nshards == shard:
             rng = util.rng_for("C15", seed, "r", k)
-            p = int(rng.integers(5, 10))
-            yield "random-pdag", {"masks": gmat.random_pdag_masks(rng, p)}
+            p = int(rng.integers(5, 14))
+            if p <= 8:
+                yield "random-pdag", {"masks": gmat.random_pdag_masks(rng, p)}
+            else:       # larger graphs kept sparse: the recursive relations enumerate every directed path
+                dag = gmat.random_dag_masks(rng, p, density=rng.uniform(0.08, 0.3))
+                out = list(dag)
+                for i in range(p):
+                    for j in G.bits(dag[i]):
+                        if rng.random() < 0.3:
+                            out[j] |= 1 << i
+                yield "random-pdag", {"masks": out}
     for k in range(N[tier]["weighted"]):
         if k % nshards == shard:
             rng = util.rng_for("C15", seed, "w", k)
-            p = int(rng.integers(2, 10))
-            out = gmat.random_dag_masks(rng, p)
+            p = int(rng.integers(2, 15))
+            out = gmat.random_dag_masks(rng, p, density=None if p <= 8 else rng.uniform(0.08, 0.3))
             yield "weighted-dag", {"W": gmat.weighted(rng, out, dtype=int if k % 3 == 0 else float)}
     for c in _gc.iter_pdag_cases((3, 4), shard, nshards):
         yield "internal", c
+    # relabelled copies of the small PDAGs inside 9..13 nodes (labels >= 8 included)
+    for c in _gc.iter_pdag_cases((3, 4), shard, nshards):
+        if c["code"] % 2 == 0:
+            yield "embedded-pdag", dict(c, P=9 + c["code"] % 5)
 
 
 def setup(rec):
@@ -96,6 +113,10 @@ def _triples(p, rng, limit):
 
 
 def judge(family, case, rec):
+    if family == "repo-tests":
+        from ..workloads import repotests
+        repotests.run(rec, case["module"])
+        return
     import sempler
     import sempler.utils as U
     from ..monitors import graph_contracts as GC
@@ -132,11 +153,19 @@ def judge(family, case, rec):
         if not G.directed_part_acyclic(out):
             rec.count("out_of_domain:cyclic-directed-part")
             return
-        A = gmat.to_np(out, dtype=int if case["code"] % 2 else float)
+        A = gmat.hostile_array(gmat.to_np(out, dtype=int if case["code"] % 2 else float), case["code"] // 2)
         key = (case["p"], case["code"])
+    elif family == "embedded-pdag":
+        small = G.pdag_from_code(case["p"], case["code"])
+        if not G.directed_part_acyclic(small) or G.n_edges(small) < 2:
+            return
+        out = gmat.embed_any(small, case["P"], util.rng_for("%se" % rec.pid, case["p"], case["code"]), case.get("code", case.get("code3", 0)) // 2)
+        A = gmat.reuse(gmat.to_np(out, dtype=int if case["code"] % 4 else float))
+        key = ("e", case["p"], case["code"])
+        rec.count("embedded:graphs")
     elif family == "random-pdag":
         out = list(case["masks"])
-        A = gmat.to_np(out)
+        A = gmat.reuse(gmat.to_np(out))      # the same caller-owned array object, overwritten in place between cases
         key = None
     else:
         A = case["W"]
@@ -158,7 +187,7 @@ def judge(family, case, rec):
         pair_list = [pair_list[int(k)] for k in rng.choice(len(pair_list), 12, replace=False)]
     for (i, j) in pair_list:
         _call(rec, family, case, "na", U.na, i, j, A)
-        if p <= 7:
+        if p <= 7 or family == "embedded-pdag":
             _call(rec, family, case, "semi_directed_paths", U.semi_directed_paths, i, j, A)
     # transitive closure: defined for DAGs; for graphs with undirected edges ValueError is documented
     if n_und == 0:
@@ -172,13 +201,13 @@ def judge(family, case, rec):
         except Exception:
             rec.count("transitive_closure:pdag-other(out of scope)")
     # separates
-    if p >= 2 and p <= 7:
+    if p >= 2 and (p <= 7 or family == "embedded-pdag"):
         if p <= 4:
             triples = _triples(p, rng, N[tier]["triples"])
         else:
             triples = []
-            for _ in range(6):
-                lab = rng.integers(0, 4, p)
+            for _ in range(6 if p <= 8 else 2):
+                lab = rng.integers(0, 4, p) if p <= 8 else (rng.integers(0, 4, p) * (rng.random(p) < 0.35))
                 S = set(int(v) for v in np.where(lab == 1)[0])
                 Aa = set(int(v) for v in np.where(lab == 2)[0])
                 B = set(int(v) for v in np.where(lab == 3)[0])
